@@ -152,6 +152,11 @@ func (e *Expression) Add(res fhir.Resource, name string, value fhir.Base, option
 		}
 	}
 
+	if field.Kind() != protoreflect.MessageKind {
+		// e.g. the raw 'value' of a primitive, which is not an element
+		return fmt.Errorf("%w: '%v'", fhirpath.ErrInvalidField, name)
+	}
+
 	if !field.IsList() && ref.Has(field) {
 		return fmt.Errorf("%w: unable to add value to populated scalar field '%v' in %v resource", ErrNotPatchable, name, resource.TypeOf(res))
 	}
